@@ -28,6 +28,9 @@ pub struct WorldOpts {
     pub max_block_cycles: Option<u64>,
     pub max_block_proposals_limit: Option<u64>,
     pub permanent_difficulty: bool,
+    /// genesis compact target (DIFF_TWO in the flat world; larger where difficulty must be able
+    /// to halve and double without hitting 1)
+    pub genesis_compact_target: u32,
 }
 
 impl Default for WorldOpts {
@@ -40,6 +43,7 @@ impl Default for WorldOpts {
             max_block_cycles: None,
             max_block_proposals_limit: None,
             permanent_difficulty: true,
+            genesis_compact_target: DIFF_TWO,
         }
     }
 }
@@ -66,6 +70,10 @@ pub fn always_success_dep(consensus: &Consensus) -> CellDep {
 /// Genesis: tx0 = always-success code cell (cellbase-shaped), tx1.. = spendable cells of
 /// distinct capacities locked by always-success.
 pub fn genesis_block() -> BlockView {
+    genesis_block_with_target(DIFF_TWO)
+}
+
+pub fn genesis_block_with_target(compact_target: u32) -> BlockView {
     let tx0 = create_always_success_tx();
     let lock = always_success_lock();
     let mut txs: Vec<TransactionView> = vec![tx0];
@@ -88,16 +96,16 @@ pub fn genesis_block() -> BlockView {
     BlockBuilder::default()
         .timestamp(BASE_TIME)
         .dao(dao)
-        .compact_target(DIFF_TWO)
+        .compact_target(compact_target)
         .transactions(txs)
         .build()
 }
 
 pub fn consensus(opts: &WorldOpts) -> Consensus {
-    let genesis = genesis_block();
+    let genesis = genesis_block_with_target(opts.genesis_compact_target);
     let epoch_ext = build_genesis_epoch_ext(
         Capacity::shannons(EPOCH_REWARD),
-        DIFF_TWO,
+        opts.genesis_compact_target,
         opts.epoch_length,
         opts.epoch_length * 8,
         (1, 40),
